@@ -1460,6 +1460,19 @@ func evalC15Fault(cs *C15Case, f *faultSpec, base *c15Result) *c15Result {
 			if base.callBases[callID][b] {
 				continue // the same call has this rejection without the fault
 			}
+			if strings.HasPrefix(b, sigStaleX) {
+				// which of several stale policy chains the rejected batch names first depends on galaxy's map iteration
+				// order, and with it the variant of the signature: the family counts as one
+				same := false
+				for bb := range base.callBases[callID] {
+					if strings.HasPrefix(bb, sigStaleX) {
+						same = true
+					}
+				}
+				if same {
+					continue
+				}
+			}
 			if rj.Op != "restore" && (rj.Kind == "chain-in-use" || rj.Kind == "set-in-use") {
 				// a single best-effort "-X chain" / "ipset destroy" that the kernel refuses because an earlier step of the same
 				// clean-up failed loses nothing and references nothing that does not exist; a refused restore batch is
